@@ -99,6 +99,7 @@ func streamOrder(seed uint64, n int, variant string) (*Summary, error) {
 	root := rng.New(seed)
 	distinct := map[string]bool{}
 	rerunProbe(sum, seed)
+	sharedSentinelProbe(sum)
 	for i := 0; i < n; i++ {
 		g := &eng.Gen{R: root.Fork()}
 		if variant == "noposts" || (variant == "" && i%2 == 0) {
@@ -372,6 +373,9 @@ func streamAlias(seed uint64, n int) (*Summary, error) {
 			b, _ := projOf(second, i, "C19")
 			if a != b {
 				sum.addViolation("C19", Mismatch{Case: line, Impl: "first:  " + a, Model: "second: " + b, What: "the same schema object behaved differently on its second use"})
+				// ... which is also: what a call returns depends on an EARLIER call (and on whether its result was
+				// handed back through the Collect helpers) — C07
+				sum.addViolation("C07", Mismatch{Case: line, Impl: "first:  " + a, Model: "second: " + b, What: "the result of a call depends on an earlier call on the same schema object (every other case hands the first result back through the Collect helpers in between)"})
 			}
 			sum.Hist["same_order_pairs"]++
 		}
@@ -833,5 +837,48 @@ func structInputProbe(sum *Summary) {
 			}
 		}
 		sum.Evaluations += 2
+	}
+}
+
+// sharedSentinelProbe (C09): ONE issue value (`var ErrDenied = &z.ZogIssue{Code: ...}`) returned by the callbacks of
+// several sibling fields of different types, all failing in one execution: what is reported must not depend on
+// which field the struct visits first. 48 executions of a fresh schema + sentinel each; all results equal.
+func sharedSentinelProbe(sum *Summary) {
+	type T struct {
+		A string
+		B int
+		C time.Time
+	}
+	results := map[string]int{}
+	for k := 0; k < 48; k++ {
+		sent := &z.ZogIssue{Code: "denied"}
+		deny := func(v any, ctx z.Ctx) (any, error) { return v, sent }
+		schema := z.Struct(z.Schema{
+			"a": z.Preprocess(deny, z.String()),
+			"b": z.Preprocess(deny, z.Int()),
+			"c": z.Preprocess(deny, z.Time()), // (no PostTransform here: whether one runs depends on the visit order, known finding D19)
+		})
+		var d T
+		m := schema.Parse(map[string]any{"a": "x", "b": 1, "c": time.Unix(5, 0)}, &d)
+		var parts []string
+		for key, l := range m {
+			if key == "$first" {
+				continue
+			}
+			for _, e := range l {
+				parts = append(parts, fmt.Sprintf("%s|%s|%s|%s|%s", key, e.Code, e.Path, e.Dtype, e.Message))
+			}
+		}
+		sort.Strings(parts)
+		results[strings.Join(parts, " ; ")]++
+		sum.Evaluations++
+	}
+	if len(results) > 1 {
+		var all []string
+		for r, cnt := range results {
+			all = append(all, fmt.Sprintf("%dx %s", cnt, r))
+		}
+		sort.Strings(all)
+		sum.addViolation("C09", Mismatch{Case: "sharedSentinelProbe: Struct{a: Preprocess(deny, String()), b: Preprocess(deny, Int()), c: Preprocess(deny, Time())} where deny returns ONE shared *ZogIssue{Code: denied}", Impl: strings.Join(all, "\n"), What: "the issues of one fixed call differ from run to run (48 runs)"})
 	}
 }
